@@ -74,14 +74,18 @@ func buildOverlay(spec map[string][]string) (Overlay, error) {
 		}
 		ov[filepath.Join(repoRoot, dir, "zz_verif_vrt.go")] = []byte(vrtSource(goPkg))
 		for _, f := range files {
-			b, err := os.ReadFile(filepath.Join(verifRoot(), "harness", f))
+			path := filepath.Join(verifRoot(), "harness", f)
+			if filepath.IsAbs(f) {
+				path = f
+			}
+			b, err := os.ReadFile(path)
 			if err != nil {
 				return nil, err
 			}
 			src := string(b)
 			// harness files are written with "package PKG" when shared between packages
 			src = strings.Replace(src, "package PKG", "package "+goPkg, 1)
-			name := "zz_verif_" + strings.ReplaceAll(strings.TrimSuffix(f, ".go"), "/", "_") + ".go"
+			name := "zz_verif_" + strings.ReplaceAll(strings.TrimSuffix(strings.TrimPrefix(f, "/"), ".go"), "/", "_") + ".go"
 			ov[filepath.Join(repoRoot, dir, name)] = []byte(src)
 		}
 	}
